@@ -13,6 +13,7 @@ import (
 	"database/sql"
 	"errors"
 	"fmt"
+	"os"
 	"sort"
 	"strings"
 	"time"
@@ -26,7 +27,7 @@ import (
 
 // Op is one step of a history.
 type Op struct {
-	K   string `json:"k"`             // take | qrow | qidx | get | write | del | set | adv | faildb | out+ | out- | jit
+	K   string `json:"k"`             // take | qrow | qidx | get | write | del | set | setx | adv | faildb | out+ | out- | jit
 	Key string `json:"key,omitempty"` // k1 | k2 (row 1 / row 2); qidx always reads the index key of row 1
 	V   string `json:"v,omitempty"`   // write: v1 | v2
 	D   int    `json:"d,omitempty"`   // adv: seconds
@@ -35,7 +36,7 @@ type Op struct {
 
 func (o Op) String() string {
 	switch o.K {
-	case "take", "qrow", "get", "del", "set":
+	case "take", "qrow", "get", "del", "set", "setx":
 		return o.K + "(" + o.Key + ")"
 	case "write":
 		return "write(" + o.Key + "," + o.V + ")"
@@ -48,6 +49,8 @@ func (o Op) String() string {
 }
 
 const maxOutageOps = 4
+
+const requestedExpiry = 2500 * time.Millisecond // SetCacheWithExpire: must become a 3 s TTL
 
 // ---- reference model ----
 
@@ -127,16 +130,23 @@ func (r *refT) String() string {
 // ---- system under test for one history ----
 
 type sut struct {
+	be   *backend
 	db   *fakeDB
 	node cache.Cache     // cache.NewNode: Take with its own configured not-found error
 	cc   sqlc.CachedConn // sqlc.NewNodeConn: QueryRow / QueryRowIndex / GetCache / SetCache / Exec
 }
 
-func newSut() *sut {
+func newSut(cluster bool) *sut {
 	env.reset()
 	db := newFakeDB()
 	opts := []cache.Option{cache.WithExpiry(expiry), cache.WithNotFoundExpiry(notFoundExpiry)}
-	return &sut{db: db,
+	if cluster {
+		// cache.New / sqlc.NewConn over two nodes: cacheCluster dispatches every key by consistent hash
+		return &sut{be: env.cluster, db: db,
+			node: cache.New(env.conf, syncx.NewSingleFlight(), env.st, errNodeNF, opts...),
+			cc:   sqlc.NewConn(db, env.conf, opts...)}
+	}
+	return &sut{be: env.single, db: db,
 		node: cache.NewNode(env.rds, syncx.NewSingleFlight(), env.st, errNodeNF, opts...),
 		cc:   sqlc.NewNodeConn(db, env.rds, opts...)}
 }
@@ -184,10 +194,11 @@ func (s *sut) step(ref *refT, op Op, verbose bool) *failure {
 	q0 := s.db.queries
 	var obs stepObs
 	var writes []written
-	ck := cacheKeyOf(op.Key)
+	ck := cacheKeyOf(op.Key) // canonical name: reference and oracles; s.be.real(ck) goes to the API
 	if op.K == "qidx" {
 		ck = keyIx
 	}
+	rk := s.be.real(ck)
 	during := ref.outage
 	tainted := ref.taint[ck]
 	var expect string // expected outcome ("" = not checked)
@@ -202,13 +213,13 @@ func (s *sut) step(ref *refT, op Op, verbose bool) *failure {
 		switch op.K {
 		case "take":
 			nf = errNodeNF
-			err = s.node.Take(&row, ck, func(v any) error { return s.db.byPrimary(id, v, errNodeNF) })
+			err = s.node.Take(&row, rk, func(v any) error { return s.db.byPrimary(id, v, errNodeNF) })
 		case "qrow":
-			err = s.cc.QueryRow(&row, ck, func(conn sqlx.SqlConn, v any) error {
+			err = s.cc.QueryRow(&row, rk, func(conn sqlx.SqlConn, v any) error {
 				return conn.(*fakeDB).byPrimary(id, v, sqlc.ErrNotFound)
 			})
 		case "get":
-			err = s.cc.GetCache(ck, &row)
+			err = s.cc.GetCache(rk, &row)
 		}
 		obs.outcome = readOutcome(&row, err, nf, id)
 		e := ref.ent[ck]
@@ -246,7 +257,7 @@ func (s *sut) step(ref *refT, op Op, verbose bool) *failure {
 		}
 	case "qidx":
 		var row Row
-		err := s.cc.QueryRowIndex(&row, keyIx, func(primary any) string { return fmt.Sprintf("c06:p:%v", primary) },
+		err := s.cc.QueryRowIndex(&row, rk, func(primary any) string { return fmt.Sprintf("c06:p:%v", primary) },
 			func(conn sqlx.SqlConn, v any) (any, error) { return conn.(*fakeDB).byName("a", v, sqlc.ErrNotFound) },
 			func(conn sqlx.SqlConn, v, primary any) error {
 				return conn.(*fakeDB).byPrimary(primaryID(primary), v, sqlc.ErrNotFound)
@@ -297,6 +308,10 @@ func (s *sut) step(ref *refT, op Op, verbose bool) *failure {
 	case "write", "del":
 		id := rowIDOf(op.Key)
 		keys := keysOfRow(op.Key)
+		var realKeys []string
+		for _, k := range keys {
+			realKeys = append(realKeys, s.be.real(k))
+		}
 		var want int64 = 1
 		if op.K == "del" && ref.db[op.Key] == "" {
 			want = 0
@@ -307,7 +322,7 @@ func (s *sut) step(ref *refT, op Op, verbose bool) *failure {
 				return d.upsert(id, rowNameOf(op.Key), op.V), nil
 			}
 			return d.remove(id), nil
-		}, keys...)
+		}, realKeys...)
 		if op.K == "write" {
 			ref.db[op.Key] = op.V
 		} else {
@@ -349,7 +364,7 @@ func (s *sut) step(ref *refT, op Op, verbose bool) *failure {
 		if row == nil {
 			return fail("harness", "set on absent row")
 		}
-		err := s.cc.SetCache(ck, row)
+		err := s.cc.SetCache(rk, row)
 		obs.outcome = "ok"
 		if err != nil {
 			obs.outcome = "err:" + err.Error()
@@ -365,8 +380,30 @@ func (s *sut) step(ref *refT, op Op, verbose bool) *failure {
 			*ref.ent[ck] = entry{kind: eVal, val: ref.db[op.Key]}
 			writes = append(writes, written{ck, valLo, valHi})
 		}
+	case "setx":
+		// SetCacheWithExpire with a REQUESTED expiry of 2.5 s: finite TTL derived from it, rounded up
+		row := s.db.rows[rowIDOf(op.Key)]
+		if row == nil {
+			return fail("harness", "setx on absent row")
+		}
+		err := s.cc.SetCacheWithExpire(rk, row, requestedExpiry)
+		obs.outcome = "ok"
+		if err != nil {
+			obs.outcome = "err:" + err.Error()
+		}
+		expectQ = 0
+		switch {
+		case during:
+			expect = "err"
+			ref.outOps++
+		case tainted:
+		default:
+			expect = "ok"
+			*ref.ent[ck] = entry{kind: eVal, val: ref.db[op.Key]}
+			writes = append(writes, written{ck, ceilSecs(950, requestedExpiry), ceilSecs(1050, requestedExpiry)})
+		}
 	case "adv":
-		env.mr.FastForward(time.Duration(op.D) * time.Second)
+		s.be.fastForward(time.Duration(op.D) * time.Second)
 		for _, e := range ref.ent {
 			if e.kind != eNone {
 				e.ttl -= op.D
@@ -398,7 +435,7 @@ func (s *sut) step(ref *refT, op Op, verbose bool) *failure {
 	if tainted && !during && (op.K == "take" || op.K == "qrow" || op.K == "qidx") {
 		ref.failNext = s.db.failNext // a read of a tainted key may or may not have queried
 	}
-	content := env.contents()
+	content := s.be.contents()
 	if verbose {
 		defer func() {
 			fmt.Printf("  %-14v -> %-22s queries=%d  redis[%s]\n      expected: %s queries=%s\n      store: %s\n      ref:   %v\n",
@@ -446,6 +483,9 @@ func (s *sut) step(ref *refT, op Op, verbose bool) *failure {
 	// ---- oracles on the store content (every key, after every step) ----
 	byKey := map[string]kv{}
 	for _, x := range content {
+		if _, dup := byKey[x.key]; dup {
+			return fail("key-on-two-nodes", "after %v key %s is stored on two cache nodes", op, x.key)
+		}
 		byKey[x.key] = x
 		if x.key != keyP1 && x.key != keyP2 && x.key != keyIx {
 			return fail("foreign-key-written", "after %v the store holds unknown key %s", op, x.key)
@@ -477,40 +517,60 @@ func (s *sut) step(ref *refT, op Op, verbose bool) *failure {
 		}
 		ref.ent[w.key].ttl = int((x.ttl + time.Second - 1) / time.Second)
 	}
-	// content == reference for every key whose coherence is demanded (a difference makes the next
-	// read of that key violate "served from cache iff live entry" / "returns what the DB holds")
+	// Store content against the reference, for every key whose coherence is still demanded. The
+	// reference holds what the cache-aside mechanism must hold (entry after a successful read or
+	// SetCache, nothing after a failed read); a difference makes the next read of that key break
+	// "served without touching the database while cached, one query otherwise" or "returns what the
+	// database holds". An entry that survives an Exec is tolerated (and adopted by the reference)
+	// when serving it is still coherent with the database: the statement only forbids stale reads.
 	for _, k := range []string{keyP1, keyP2, keyIx} {
 		if ref.taint[k] {
 			continue
 		}
 		e := ref.ent[k]
 		x, present := byKey[k]
+		obsE := entry{}
+		if present {
+			obsE = entry{kind: eVal, val: x.val, ttl: int((x.ttl + time.Second - 1) / time.Second)}
+			if x.val == "*" {
+				obsE.kind, obsE.val = ePh, ""
+			} else if k != keyIx {
+				obsE.val = rowValueOfJSON(x.val)
+			}
+		}
 		switch {
+		case e.kind == eNone && !present:
 		case e.kind == eNone && present:
-			return fail(unexpectedEntryClass(op, during, ref, x), "after %v key %s=%s@%v is cached, reference holds no entry (%s)", op, k, x.val, x.ttl, ref)
-		case e.kind != eNone && !present:
+			if (op.K == "write" || op.K == "del") && ref.coherent(k, obsE) {
+				*e = obsE
+				continue
+			}
+			return fail(unexpectedEntryClass(op, x), "after %v key %s=%s@%v is cached; the reference holds no entry for it (%s)", op, k, x.val, x.ttl, ref)
+		case !present:
 			return fail("entry-missing:"+opTag, "after %v key %s is not cached, reference holds %v (%s)", op, k, *e, ref)
-		case e.kind == ePh && x.val != "*":
-			return fail("entry-mismatch:"+opTag, "after %v key %s=%s, reference holds the not-found placeholder", op, k, x.val)
-		case e.kind == eVal:
-			want := e.val
-			got := x.val
-			if k != keyIx {
-				got = rowValueOfJSON(x.val)
-			}
-			if got != want {
-				return fail("entry-mismatch:"+opTag, "after %v key %s=%s, reference holds %s", op, k, x.val, want)
-			}
-			if e.ttl != int((x.ttl+time.Second-1)/time.Second) {
-				return fail("entry-ttl-changed:"+opTag, "after %v key %s has TTL %v, reference %ds (TTL moved without a write)", op, k, x.ttl, e.ttl)
-			}
-		case e.kind == ePh:
-			if e.ttl != int((x.ttl+time.Second-1)/time.Second) {
-				return fail("entry-ttl-changed:"+opTag, "after %v key %s has TTL %v, reference %ds (TTL moved without a write)", op, k, x.ttl, e.ttl)
-			}
+		case e.kind != obsE.kind || e.val != obsE.val:
+			return fail("entry-mismatch:"+opTag, "after %v key %s=%s, reference holds %v (%s)", op, k, x.val, *e, ref)
+		default:
+			e.ttl = obsE.ttl
 		}
 	}
 	return nil
+}
+
+// coherent: would serving entry x under cache key k return what the database holds?
+func (r *refT) coherent(k string, x entry) bool {
+	row := "k1"
+	if k == keyP2 {
+		row = "k2"
+	}
+	switch {
+	case x.kind == ePh:
+		return r.db[row] == ""
+	case k == keyIx:
+		return x.val == "1" // points at the primary key of row 1, whose own entry/query decides
+	default:
+		return r.db[row] != "" && x.val == r.db[row]
+	}
 }
 
 func outageTag(during bool) string {
@@ -580,10 +640,10 @@ func resultClass(op Op, expect, got string, ref *refT, during bool) string {
 	return "wrong-result:" + op.K
 }
 
-func unexpectedEntryClass(op Op, during bool, ref *refT, x kv) string {
+func unexpectedEntryClass(op Op, x kv) string {
 	switch op.K {
 	case "write", "del":
-		return "entry-survives-invalidation:" + entryTag(x)
+		return "stale-entry-survives-invalidation:" + entryTag(x)
 	case "take", "qrow", "qidx":
 		return "failed-read-cached:" + op.K + ":" + entryTag(x)
 	}
@@ -599,16 +659,19 @@ type histResult struct {
 	info string
 }
 
-func runHistory(path []Op, verbose bool) histResult {
+func runHistory(path []Op, verbose, cluster bool) histResult {
 	initEnv()
-	s := newSut()
+	if cluster {
+		env.initCluster()
+	}
+	s := newSut(cluster)
 	ref := newRef()
 	for i, op := range path {
 		if f := s.step(ref, op, verbose); f != nil {
 			return histResult{fail: f, at: i}
 		}
 	}
-	return histResult{key: ref.String() + " || " + dumpString(env.contents()), info: ref.String()}
+	return histResult{key: ref.String() + " || " + dumpString(s.be.contents()), info: ref.String()}
 }
 
 // ---- alphabet ----
@@ -641,7 +704,7 @@ func foldPath(path []Op) abstractState {
 		}
 		if a.outage {
 			switch o.K {
-			case "take", "qrow", "qidx", "get", "write", "del", "set":
+			case "take", "qrow", "qidx", "get", "write", "del", "set", "setx":
 				a.outOps++
 			}
 		}
@@ -649,7 +712,7 @@ func foldPath(path []Op) abstractState {
 	return a
 }
 
-func alphabet(thorough bool) func(depth int, path []Op) []Op {
+func alphabet(cluster bool) func(depth int, path []Op) []Op {
 	return func(depth int, path []Op) []Op {
 		a := foldPath(path)
 		cacheOK := !a.outage || a.outOps < maxOutageOps
@@ -661,13 +724,11 @@ func alphabet(thorough bool) func(depth int, path []Op) []Op {
 			add(Op{K: "qidx"})
 			add(Op{K: "get", Key: "k1"})
 			add(Op{K: "qrow", Key: "k2"})
-			if thorough {
-				add(Op{K: "take", Key: "k2"})
-				add(Op{K: "get", Key: "k2"})
-			}
+			add(Op{K: "take", Key: "k2"})
+			add(Op{K: "get", Key: "k2"})
 			for _, k := range []string{"k1", "k2"} {
 				for _, v := range []string{"v1", "v2"} {
-					if a.db[k] == v || (k == "k2" && v == "v2" && !thorough) {
+					if a.db[k] == v {
 						continue // rewriting the same value adds nothing the state key does not already merge
 					}
 					add(Op{K: "write", Key: k, V: v})
@@ -675,9 +736,12 @@ func alphabet(thorough bool) func(depth int, path []Op) []Op {
 				add(Op{K: "del", Key: k})
 			}
 			for _, k := range []string{"k1", "k2"} {
-				if a.db[k] != "" && (k == "k1" || thorough) {
+				if a.db[k] != "" {
 					add(Op{K: "set", Key: k})
 				}
+			}
+			if a.db["k1"] != "" {
+				add(Op{K: "setx", Key: "k1"})
 			}
 		}
 		half := int(expiry / time.Second / 2)
@@ -687,9 +751,12 @@ func alphabet(thorough bool) func(depth int, path []Op) []Op {
 			add(Op{K: "adv", D: d})
 		}
 		add(Op{K: "faildb"}) // re-arming an armed failure is merged by the state key
-		if a.outage {
+		switch {
+		case cluster:
+			// no outages behind cache.New: its nodes carry the real, process-global circuit breaker
+		case a.outage:
 			add(Op{K: "out-"})
-		} else {
+		default:
 			add(Op{K: "out+"})
 		}
 		for j := range jitterMenu {
@@ -703,8 +770,9 @@ func alphabet(thorough bool) func(depth int, path []Op) []Op {
 
 // HistCase is the replay artefact of a failing history.
 type HistCase struct {
-	Kind string `json:"kind"` // "history"
-	Path []Op   `json:"path"`
+	Kind    string `json:"kind"`              // "history"
+	Cluster bool   `json:"cluster,omitempty"` // two-node cache.New / sqlc.NewConn instead of NewNode / NewNodeConn
+	Path    []Op   `json:"path"`
 }
 
 func pathString(p []Op) string {
@@ -715,25 +783,38 @@ func pathString(p []Op) string {
 	return strings.Join(s, " ")
 }
 
-func searchHistories(cfg *vlib.Config, r *vlib.Report, deadline time.Time) {
-	depth := 6
-	if cfg.Thorough() {
-		depth = 8
-	}
+func searchHistories(cfg *vlib.Config, r *vlib.Report, name string, cluster bool, depth int, deadline time.Time) {
 	classes := map[string]int{}
+	tag := ""
+	if cluster {
+		tag = "two-node cluster: "
+	}
 	bfs := &vlib.PBFS[Op]{
-		Name:     "histories",
+		Name:     name,
 		Cfg:      cfg,
 		MaxDepth: depth,
 		Deadline: deadline,
-		Alphabet: alphabet(cfg.Thorough()),
+		Alphabet: alphabet(cluster),
 		Run: func(path []Op) vlib.RunResult {
-			res := runHistory(path, false)
+			res := runHistory(path, false, cluster)
+			if res.fail != nil && res.fail.class != "harness" {
+				// The code under test is deterministic; the TCP round trips to miniredis are not immune
+				// to a starved machine (go-redis read timeout). A failure is believed only if it
+				// reproduces twice more with the same class.
+				for i := 0; i < 2; i++ {
+					again := runHistory(path, false, cluster)
+					if again.fail == nil || again.fail.class != res.fail.class {
+						fmt.Fprintf(os.Stderr, "C06: failure %q of history %s did not reproduce (environment flake), re-running\n", res.fail.class, pathString(path))
+						res = runHistory(path, false, cluster)
+						break
+					}
+				}
+			}
 			if res.fail != nil {
 				if res.fail.class == "harness" {
 					return vlib.RunResult{Err: "harness error: " + res.fail.msg, Class: "harness"}
 				}
-				return vlib.RunResult{Err: fmt.Sprintf("step %d: %s  [history: %s]", res.at, res.fail.msg, pathString(path)), Class: res.fail.class}
+				return vlib.RunResult{Err: fmt.Sprintf("%sstep %d: %s  [history: %s]", tag, res.at, res.fail.msg, pathString(path)), Class: res.fail.class}
 			}
 			return vlib.RunResult{Key: res.key, Info: res.info}
 		},
@@ -742,14 +823,14 @@ func searchHistories(cfg *vlib.Config, r *vlib.Report, deadline time.Time) {
 				vlib.Fatal("%s (history %s)", res.Err, pathString(path))
 			}
 			classes[res.Class]++
-			r.Violation(res.Class, res.Err, HistCase{Kind: "history", Path: append([]Op(nil), path...)})
+			r.Violation(res.Class, res.Err, HistCase{Kind: "history", Cluster: cluster, Path: append([]Op(nil), path...)})
 		},
 		OnState: func(path []Op, res vlib.RunResult) {
 			// non-trivial: some cache entry, taint or armed fault is part of the state
 			if strings.Contains(res.Key, "@") || strings.Contains(res.Key, "?") || strings.Contains(res.Key, "fail=true") || strings.Contains(res.Key, "out=true") {
-				r.Nontrivial("hist|" + res.Key)
+				r.Nontrivial(name + "|" + res.Key)
 			}
-			if r.WantSample() && len(path) >= 5 && len(path)%2 == 1 && strings.Count(res.Key, "@") >= 4 {
+			if !cluster && r.WantSample() && len(path) >= 5 && strings.Contains(res.Key, "v2@") && strings.Contains(res.Key, "*@") && sampleGate(res.Key) {
 				r.Sample(map[string]any{"history": pathString(path), "state": res.Key})
 			}
 		},
@@ -767,9 +848,21 @@ func searchHistories(cfg *vlib.Config, r *vlib.Report, deadline time.Time) {
 		cl = append(cl, fmt.Sprintf("%s×%d", c, n))
 	}
 	sort.Strings(cl)
-	r.Scenario("histories", map[string]any{"states": out.States, "transitions": out.Transitions, "depth_bound": depth, "max_depth": out.MaxDepth,
+	r.Scenario(name, map[string]any{"states": out.States, "transitions": out.Transitions, "depth_bound": depth, "max_depth": out.MaxDepth,
 		"closed": out.Closed, "exhaustive_to_depth": out.Exhaustive, "failures": out.Failures, "failure_classes": cl, "cap": out.Cap})
 	if !out.Exhaustive {
-		r.NotExhaustive("histories: " + out.Cap)
+		r.NotExhaustive(name + ": " + out.Cap)
 	}
+}
+
+var sampled = map[string]bool{}
+
+// sampleGate keeps evidence samples varied: one per (taint, outage, fault) combination.
+func sampleGate(key string) bool {
+	k := fmt.Sprint(strings.Contains(key, "?"), strings.Contains(key, "out=true"), strings.Contains(key, "fail=true"), strings.Contains(key, "jit=0"))
+	if sampled[k] {
+		return false
+	}
+	sampled[k] = true
+	return true
 }
